@@ -16,21 +16,6 @@ theorem ROs_withB {s : SState} {b' : State} (h : ROs s) (h1 : b'.supply = s.b.su
   show RO s.k b'.supply b'.validators
   rw [h1, h2]; exact h
 
-theorem mintS_no_panic {s : SState} {a : Int} {key : AccKey} : mintS s a key ≠ .error .panic := by
-  unfold mintS
-  split
-  · intro h; cases h
-  · split
-    · intro h; cases h
-    · dsimp only
-      split
-      · intro h; cases h
-      · split
-        · intro h; cases h
-        · split
-          · intro h; cases h
-          · intro h; cases h
-
 /-! ## SuperfluidDelegate -/
 
 /-- the mint of a delegation has room: the value of the lock fits on top of the supply. -/
